@@ -1,5 +1,6 @@
 import MypyVerif.Gen.CFast
 import MypyVerif.Model.FixedWidth
+import MypyVerif.Model.FloatConv
 /-!
 Line-protocol driver for C15 (generated definitions and model files only — no proofs needed at run time).
 
@@ -12,6 +13,9 @@ Line-protocol driver for C15 (generated definitions and model files only — no 
   M u8div|u8mod <a> <b>
   M toI64 <src> | M toNarrow <w> <s> <src> | M i64ToInt <src> | M narrowToInt <w> <s> <src>
                                   → same result syntax (registers printed as unsigned decimals)
+  M tdiv <sa> <|a|> <sb> <|b|>   true division (s = 1: negative) → `tdiv c <neg> <m> <eoff> p <neg> <m> <eoff>`:
+                                  c = compiled fast path, p = CPython; value = (-1)^neg · m · 2^(eoff-1200)
+  M i2f <sa> <|a|>               `(double)a` as an integer → `val <neg> <n>`
 -/
 open FixedWidth CSem
 
@@ -76,6 +80,22 @@ def model (ws : List String) : String :=
     match w.toNat?, src.toNat? with
     | some w, some x => withWidth w fun w => "val " ++ showBV (narrowToInt (s == "1") (BitVec.ofNat w x))
     | _, _ => "bad-args"
+  | ["tdiv", sa, a, sb, b] =>
+    match a.toNat?, b.toNat? with
+    | some a, some b =>
+      let ai : Int := if sa == "1" then -(a : Int) else a
+      let bi : Int := if sb == "1" then -(b : Int) else b
+      let c := FloatConv.compiledTrueDiv ai bi
+      let p := FloatConv.cpythonTrueDiv ai bi
+      s!"tdiv c {showBool c.neg} {c.m} {c.eoff} p {showBool p.neg} {p.m} {p.eoff}"
+    | _, _ => "bad-args"
+  | ["i2f", sa, a] =>
+    match a.toNat? with
+    | some a =>
+      let ai : Int := if sa == "1" then -(a : Int) else a
+      let d := FloatConv.toDouble ai
+      s!"val {showBool (decide (d < 0))} {d.natAbs}"
+    | none => "bad-args"
   | _ => "bad-op"
 
 def step (line : String) : String :=
